@@ -478,6 +478,11 @@ pub fn sweep(backend_name: &str, op: &str, count: u64) {
         };
         let o = execute(&case);
         let v = o.violation.as_ref().map(|v| format!("{}:{}", v.0, v.1)).unwrap_or_else(|| "ok".into());
+        if std::env::var("SWEEP_DETAIL").is_ok()
+            && let Some(vv) = &o.violation
+        {
+            println!("  detail: {}", vv.2);
+        }
         println!(
             "{} adm={} decl={} hwm={} n={} r={}{} bin={} bkey={} bres={} kin={} kkey={} kres={} ds={}",
             v, o.admissible, o.declared, o.hwm, shape.n, shape.rank_in, shape.rank_out, shape.b_in, shape.b_key, shape.b_res,
